@@ -43,9 +43,10 @@ def day_obs(p, n):
     p.set_variable('vn', n)
     p.set_variable('vd', d)
     p.set_variable('vb', BASE)
-    p.set_variable('vy', d.year)
-    p.set_variable('vm', d.month)
-    p.set_variable('vdd', d.day)
+    fl = float if n % 5 == 0 else int       # computed arguments (4040/2) are floats holding whole numbers
+    p.set_variable('vy', fl(d.year))
+    p.set_variable('vm', fl(d.month))
+    p.set_variable('vdd', fl(d.day))
     p.set_variable('vnext', d + datetime.timedelta(days=1) if n < LAST else d)
     k = 7 if n + 7 <= LAST else 0
     p.set_variable('vk', k)
@@ -64,6 +65,12 @@ def instant_obs(p, y, mo, d, ms):
 
 
 def time_obs(p, h, m, s):
+    if (h + m + s) % 4 == 0:      # the parts as computed values: floats holding whole numbers
+        p.set_variable('vh', float(h))
+        p.set_variable('vmi', float(m))
+        p.set_variable('vs', float(s))
+        return {'kind': 'time', 'in': {'h': h, 'm': m, 's': s, 'as': 'float variables'},
+                'out': value_of(p, '{HOUR(TIME(vh,vmi,vs)),MINUTE(TIME(vh,vmi,vs)),SECOND(TIME(vh,vmi,vs))}')}
     return {'kind': 'time', 'in': {'h': h, 'm': m, 's': s},
             'out': value_of(p, '{HOUR(TIME(%d,%d,%d)),MINUTE(TIME(%d,%d,%d)),SECOND(TIME(%d,%d,%d))}' % ((h, m, s) * 3))}
 
@@ -94,13 +101,13 @@ def pair_obs(p, a, b):
 
 def edate_obs(p, a, k):
     p.set_variable('va', a)
-    p.set_variable('vk', k)
+    p.set_variable('vk', float(k) if k % 3 == 0 else k)
     return {'kind': 'edate', 'in': {'a': civ(a), 'k': k}, 'out': value_of(p, '{EDATE(va,vk)}')}
 
 
 def wtype_obs(p, n, t):
     p.set_variable('vd', EPOCH + datetime.timedelta(days=n))
-    p.set_variable('vt', t)
+    p.set_variable('vt', float(t) if n % 2 else t)
     return {'kind': 'wtype', 'in': {'n': n, 'type': t}, 'out': value_of(p, '{WEEKDAY(vd,vt)}')}
 
 
